@@ -226,12 +226,12 @@ def correspond(ctx, exe, n_specs, files=True):
         hout = run_drv(exe, ['H\t' + t for _, t in hlines])
         iout = run_drv(exe, ['I\t' + t for _, t in hlines])
         names = ['only-covered-sections', 'writes', 'no-extra-precision', 'end-keyword', 'title', 'chain_ok', 'all',
-                 'idem-covered-sections', 'write_idem-hypotheses', 'write_fixpoint-hypotheses']
+                 'idem-covered-sections', 'write_idem-hypotheses', 'write_fixpoint-hypotheses', 'value-conditions-only']
         met = collections.Counter()
         for (spec, _), h, i in zip(hlines, hout, iout):
             for nm, b in zip(names, h): met[nm] += (b == '1')
-            if len(h) == 10 and h[0] == '1' and h[6] == '0': met['covered-but-not-met'] += 1
-            if len(h) == 10 and h[6] == '1' and h[7] == '1' and h[9] == '0': met['idem-covered-but-not-met'] += 1
+            if len(h) == 11 and h[0] == '1' and h[6] == '0': met['covered-but-not-met'] += 1
+            if len(h) == 11 and h[6] == '1' and h[7] == '1' and h[9] == '0': met['idem-covered-but-not-met'] += 1
             if i != '11':
                 ctx.disagreement('model-write-read-cycles', {'spec': spec}, 'second file = first up to trailing blanks, third = second: %s' % i, 'expected 11')
         ctx.corr_cases('model-write-read-cycles', len(hlines))
